@@ -423,6 +423,14 @@ func RunKeybase(r *sim.Rand, nops int, lazy bool, rep Reporter) {
 					rep.Violate("C19", "kb-import-address", "imported key has another address")
 				}
 				model[act.AddrHex()] = &kbEntry{priv: act.Priv.RawBytes(), pass: pass, pub: act.Pub, old: formerPasses[act.AddrHex()]}
+				for _, fp := range formerPasses[act.AddrHex()] {
+					if !kdfEquivalent(fp, pass) {
+						if _, _, err := kb.Sign(kp.GetAddress(), fp, []byte("after-reimport")); err == nil {
+							rep.Violate("C19", "kb-old-pass-still-works/after-delete-and-reimport", "a passphrase of a deleted incarnation of the key signs for the re-imported key")
+						}
+						rep.Count("c19.kb.sign_with_passphrase_of_deleted_incarnation", 1)
+					}
+				}
 			case exists:
 				intact(act.AddrHex(), model[act.AddrHex()], "refused-import")
 			}
@@ -498,6 +506,12 @@ func RunKeybase(r *sim.Rand, nops int, lazy bool, rep Reporter) {
 				intact(a, e, "wrong-pass-update")
 				continue
 			}
+			if r.Bool() {
+				// the key was in use under its current passphrase right before the change
+				if _, _, err := kb.Sign(ad, e.pass, []byte("before-update")); err != nil {
+					rep.Violate("C19", "kb-sign-error", fmt.Sprintf("Sign with the right passphrase failed: %v", err))
+				}
+			}
 			if err := kb.Update(ad, e.pass, np); err != nil {
 				rep.Violate("C19", "kb-update-error", fmt.Sprintf("Update with the right passphrase failed: %v", err))
 				continue
@@ -509,6 +523,12 @@ func RunKeybase(r *sim.Rand, nops int, lazy bool, rep Reporter) {
 			if old != np {
 				if _, err := kb.ExportPrivateKeyObject(ad, old); err == nil {
 					rep.Violate("C19", "kb-old-pass-still-works", "after Update the old passphrase still opens the key")
+				}
+				if !kdfEquivalent(old, np) {
+					if _, _, err := kb.Sign(ad, old, []byte("after-update")); err == nil {
+						rep.Violate("C19", "kb-old-pass-still-works/sign", "after Update the old passphrase still signs")
+					}
+					rep.Count("c19.kb.sign_with_replaced_passphrase", 1)
 				}
 			}
 		case 6: // delete
@@ -525,6 +545,9 @@ func RunKeybase(r *sim.Rand, nops int, lazy bool, rep Reporter) {
 				intact(a, e, "wrong-pass-delete")
 				checkList("refused-delete")
 				continue
+			}
+			if r.Bool() {
+				kb.Sign(ad, e.pass, []byte("before-delete"))
 			}
 			if err := kb.Delete(ad, e.pass); err != nil {
 				rep.Violate("C19", "kb-delete-error", fmt.Sprintf("Delete with the right passphrase failed: %v", err))
